@@ -26,6 +26,17 @@ checks = {
           "Very long inputs are outside the bound (N <= 5). "),
  "C14": g("Two instances (same parser type, two different parser packages, and two instances initialised with the SAME option values) make their API calls (init, parse, execute/print/error) in every merge order of the enumerated set; each instance's observables must equal its run-alone observables and the actors' heap footprints must be write-disjoint.",
           "Non-interference argument (disjoint write footprints => any real schedule is equivalent to a sequential one), not scheduler exploration; sync.Pool is modelled as handing out the most recently Put item. "),
+ "C10": dict(
+   text="The shipped front end (peg.peg.go with the real tree-builder actions) is executed symbolically on 25 templates of documented constructs whose 1-3 hole characters are solver variables (any code point), and on a valid header followed by K arbitrary characters; "
+        "next to it an independent recursive-descent reader of the documented syntax (vhlib/pegread) runs on the same text: accept/reject must agree, the tree reachable through the exported accessors must denote what the reader denotes "
+        "(escapes incl. octal/hex code points, case-insensitive expansion, negation, precedence, comments, arrows, imports, nested braces), an accepted text must leave a well-formed tree (no corrupted builder stack), and nothing may panic.",
+   note=NOTE_COMMON + "Bounds: templates + holes, tails K <= 2 (quick) / 3 (thorough). Assumed away where the documentation is silent: upper-case escape letters, non-ASCII letters in \"...\" / [[...]], ']' '-' '^' '\\' as raw class members. Sequence and choice are compared up to associativity.",
+   design="DESIGN.md 4/C10"),
+ "C17": dict(
+   text="REDUCED CLAIM: the front end is regenerated from peg.peg under the four -inline/-switch option sets with the peg built from the working tree (must succeed under -strict); the four regenerated front ends and the checked-in peg.peg.go are executed symbolically on the same grammar text with K symbolic characters: "
+        "same verdict, same token list and same resulting tree. Byte-for-byte reproduction of peg.peg.go by the bootstrap chain is NOT covered (closed concrete computation; see DESIGN.md 5).",
+   note=NOTE_COMMON + "K <= 2 (quick) / 3 (thorough) symbolic characters in two text shapes; shipped example grammars are not part of this check.",
+   design="DESIGN.md 4/C17, 5"),
  "C15": dict(
    text="The real (*tree.Tree).Compile (first/second pass, link, countRules, checkRecursion, the emission loop's diagnostics, Strict epilogue) is executed symbolically on skeleton grammars built through the exported builder, "
         "with the operator labels (? * + & ! <>, choice/sequence, terminal kinds), -inline and Strict as solver variables, against an independent analysis (definedness, reachability, Ford-style left recursion incl. nullable prefixes and all operators): "
@@ -52,6 +63,7 @@ checks = {
    design="DESIGN.md 4/C18"),
 }
 NA = {
+ "C08": "the property is about emitted text being valid, gofmt-canonical Go for every accepted grammar: its verdict is pronounced by go/parser, go/types and go/printer on text produced through fmt and text/template, none of which can be encoded within reach, and the only quantified variable (the grammar) cannot be symbolic; by-product only: every generated file of every family grammar and option set is type-checked when loaded and a failure is reported under C01/C02/C07 (DESIGN.md 5)",
 }
 m = {"version": 1,
  "setup_cmd": "cd /verif && PATH=/opt/veriftools/go1.26.8/bin:$PATH GOFLAGS=-mod=mod GOPROXY=off GOTOOLCHAIN=local go build -o bin/vcheck ./cmd/vcheck",
